@@ -21,6 +21,9 @@ def build(release=False):
     return path
 
 
+MAX_PER_PROCESS = 250
+
+
 def _run_one(args):
     exe, mode, lines, extra, timeout = args
     p = subprocess.run([exe, mode] + extra, input="\n".join(lines) + "\n", stdout=subprocess.PIPE,
@@ -36,9 +39,12 @@ def run_traces(mode, traces, extra=None, shards=None, release=False, timeout=180
     res = {}
     pending = list(traces)
     rounds = 0
-    while pending and rounds < 200:
+    while pending and rounds < 2000:
         rounds += 1
-        groups = [pending[i::shards] for i in range(shards)]
+        # a harness process leaks the listeners and connections of every server it started (the server has no listener
+        # shutdown): bound the number of traces per process, run the rest in further waves
+        wave, rest = pending[:shards * MAX_PER_PROCESS], pending[shards * MAX_PER_PROCESS:]
+        groups = [wave[i::shards] for i in range(shards)]
         groups = [g for g in groups if g]
         jobs = [(exe, mode, [json.dumps(t) for t in g], extra or [], timeout) for g in groups]
         with concurrent.futures.ThreadPoolExecutor(max_workers=NCPU) as ex:
@@ -56,5 +62,5 @@ def run_traces(mode, traces, extra=None, shards=None, release=False, timeout=180
                 first = missing[0]
                 res[first["id"]] = {"id": first["id"], "crash": se[-1500:], "rc": rc}
                 nxt.extend(missing[1:])
-        pending = nxt
+        pending = nxt + rest
     return res
